@@ -16,6 +16,8 @@ package outbounds
 //   * exactly one outbound is asked, with the method the caller used (TCP/UDP/CheckUDP);
 //   * hijack rule: Host is the hijack IP, ResolveInfo carries that IP in its family and
 //     nothing in the other family; no hijack: Host, Port, ResolveInfo arrive unchanged;
+//   * a request whose ResolveInfo carries an error TOGETHER with one or both addresses (partial
+//     resolution, documented in interface.go) is matched on the addresses it carries;
 //   * the same request gives the same observation at every point of a history.
 // Parts: engine-history (sequential histories, caches 1/4/1024), engine-concurrent
 // (8 goroutines on one engine, under -race).
@@ -81,6 +83,11 @@ type vfC09EngCase struct {
 	Queries []vfC09Query
 	Expect  []vfC09Expect
 	RIKind  []int // how the request carries "no resolved address": 0 nil, 1 empty struct, 2 struct with Err
+	// PartErr: the request's ResolveInfo carries its address(es) AND Err != nil. interface.go documents
+	// that state ("there could be an error but also some resolved IP addresses"): the resolver stages look
+	// up A and AAAA independently and report the error of either. The addresses present are resolved
+	// addresses of the host, so IP/CIDR rules apply to them exactly as without the error.
+	PartErr []bool
 	calls   int64
 }
 
@@ -127,9 +134,11 @@ func vfC09NewEngCase(k *vfKit, id string, nQueries int) *vfC09EngCase {
 	c.Queries = vfC09DeriveQueries(rg, c.Rules, u, nQueries)
 	c.Expect = make([]vfC09Expect, len(c.Queries))
 	c.RIKind = make([]int, len(c.Queries))
+	c.PartErr = make([]bool, len(c.Queries))
 	for i := range c.Queries {
 		c.Expect[i] = vfC09Expected(c.Rules, &c.Queries[i])
 		c.RIKind[i] = rg.Intn(3)
+		c.PartErr[i] = rg.Intn(3) == 0
 	}
 	return c
 }
@@ -171,6 +180,9 @@ func (c *vfC09EngCase) request(qi int) *AddrEx {
 	a := &AddrEx{Host: q.Name, Port: q.Port}
 	if q.V4 != nil || q.V6 != nil {
 		a.ResolveInfo = &ResolveInfo{IPv4: append(net.IP(nil), q.V4...), IPv6: append(net.IP(nil), q.V6...)}
+		if c.PartErr[qi] {
+			a.ResolveInfo.Err = vfC09ErrResolve
+		}
 	} else {
 		switch c.RIKind[qi] {
 		case 1:
@@ -362,6 +374,12 @@ func (c *vfC09EngCase) countExpectations(k0 *vfKit) {
 		}
 		if e.Matching >= 2 {
 			k.Count("ev_requests_order_decides", 1)
+		}
+		if q := &c.Queries[i]; c.PartErr[i] && (q.V4 != nil || q.V6 != nil) {
+			k.Count("ev_requests_err_with_address", 1)
+			if e.Rule >= 0 && !e.Ambiguous && (c.Rules[e.Rule].Kind == vfC09IP || c.Rules[e.Rule].Kind == vfC09CIDR) {
+				k.Count("ev_requests_err_with_address_decided_by_ip_rule", 1)
+			}
 		}
 	}
 }
